@@ -112,12 +112,12 @@ def work_depth1(items):
     out = {'evaluations': 0, 'judged': 0, 'not_judged': 0, 'violations': [], 'outcomes': set(), 'novel': []}
     literal_sigs = set()
     for kind, v, a, b in items:
-        if kind == 'm':
+        if kind in ('m', 'mx'):
             text, exp = monad_text(v, a), verbs.MONADS[v](a)
         else:
             text, exp = dyad_text(v, a, b), verbs.DYADS[v](a, b)
-        got = check_case(kl, text, exp, out, ('monad ' if kind == 'm' else 'dyad ') + v)
-        if got[0] == 'ok' and exp is not verbs.NJ and exp[0] == 'val' and got[1][0] in 'irl':
+        got = check_case(kl, text, exp, out, ('monad ' if kind in ('m', 'mx') else 'dyad ') + v)
+        if kind != 'mx' and got[0] == 'ok' and exp is not verbs.NJ and exp[0] == 'val' and got[1][0] in 'irl':
             out['novel'].append((text, verbs.norm(exp[1]), repr(signature(got[2]))))
     return out
 
@@ -149,6 +149,11 @@ def run(cfg):
     check = verbs_examples.selfcheck()
     U = universe(cfg.quick)
     items = [('m', v, a, None) for v in MONADS for a in U] + [('d', v, a, b) for v in DYADS for a in U for b in U]
+    # operands for the monads only: lists with a repeated element that is itself a list of strings / a nested list, and
+    # lists whose elements hold the same numbers in different shapes (what "the same element" means for Range, Group, Grade)
+    # (not extended at depth 2)
+    extra = [norm(P(x)) for x in [[['ab', 'cd'], ['ef', 'gh'], ['ab', 'cd']]]]
+    items += [('mx', v, a, None) for v in MONADS for a in extra]
     total = {}
     for part in runner.pmap(work_depth1, items, cfg):
         runner.merge_counts(total, part)
